@@ -119,11 +119,9 @@ def pure_circuits(draw, dom, max_boxes, max_width, unitary_only=False):
         if unitary_only and b["k"] == "g" and b["g"] in (
                 "Ket", "Bra", "scalar", "sqrt"):
             continue
-        if b["k"] == "g" and b.get("dag") and b["g"] in ("S", "T", "Y")\
-                and False:
-            continue
         layers.append([b, off])
         scan = scan[:off] + specs.bcod(b) + scan[off + len(specs.bdom(b)):]
+    qspec.jitter(draw, layers)
     return {"cls": "circuit", "dom": [list(w) for w in dom], "layers": layers}
 
 
